@@ -370,7 +370,7 @@ func (w *World) Converged() (bool, string) {
 			if c.State != "" {
 				return false, fmt.Sprintf("in-transfer copy of %d on shard %d", h, i)
 			}
-			if w.oversized(t) {
+			if w.exceeds(t) {
 				return false, fmt.Sprintf("oversized target %d assigned to shard %d", h, i)
 			}
 			if c.Health != "up" && !(t.Down && c.Health == "down") {
@@ -399,6 +399,13 @@ func (w *World) Converged() (bool, string) {
 func (w *World) oversized(t *T) bool {
 	o := w.Cfg.Opt
 	return (o.MaxHead != 0 && int64(t.Kept) >= o.MaxHead) || int64(t.Kept) >= o.MaxProc || int64(t.Total) >= o.MaxProc
+}
+
+// exceeds: the target alone is larger than a limit (the statement's "larger than a shard's limit"); a
+// target exactly as large as a limit neither fits a shard nor exceeds the limit.
+func (w *World) exceeds(t *T) bool {
+	o := w.Cfg.Opt
+	return (o.MaxHead != 0 && int64(t.Kept) > o.MaxHead) || int64(t.Kept) > o.MaxProc || int64(t.Total) > o.MaxProc
 }
 
 // Eligible: discovered, probed healthy, fits a shard.
